@@ -2,6 +2,7 @@ package esim
 
 import (
 	"grulesim/sim/core"
+	"grulesim/sim/gen"
 	"grulesim/sim/grl"
 )
 
@@ -19,6 +20,7 @@ func Shrink(sc *core.Scenario, fails Failing, budget int) (*core.Scenario, int) 
 		}
 		tried++
 		if c.Program != nil {
+			gen.AnnounceFieldMethods(c.Program, nil) // a candidate must stay inside the documented protocol (R2)
 			c.GRL = grl.PrintProgram(c.Program)
 		}
 		if fails(c) {
@@ -66,6 +68,7 @@ func Shrink(sc *core.Scenario, fails Failing, budget int) (*core.Scenario, int) 
 		simpl := []func(c *core.Scenario) bool{
 			func(c *core.Scenario) bool { if c.Knobs.Source == "direct" || c.Knobs.Source == "" { return false }; c.Knobs.Source = "direct"; return true },
 			func(c *core.Scenario) bool { if c.Knobs.Listeners == 1 { return false }; c.Knobs.Listeners = 1; return true },
+			func(c *core.Scenario) bool { if c.Knobs.SplitAt == 0 { return false }; c.Knobs.SplitAt = 0; return true },
 			func(c *core.Scenario) bool { if !c.Knobs.RetErr { return false }; c.Knobs.RetErr = false; return true },
 			func(c *core.Scenario) bool { if len(c.Removed) == 0 { return false }; c.Removed = nil; return true },
 			func(c *core.Scenario) bool { if len(c.Schedule) == 0 { return false }; c.Schedule = nil; return true },
